@@ -19,7 +19,7 @@ import (
 // Fault enumeration: for every position at which a compaction delete can fail, and for every
 // position after which the compactor can die, on a freshly rebuilt identical store.
 
-var c07Engines = []string{"memkv", "tikv", "memkv", "badger", "tikv/split", "memkv/parts", "tikv/split"}
+var c07Engines = []string{"memkv", "tikv", "memkv+m", "badger", "tikv/split", "memkv/parts", "tikv/split", "tikv+m", "badger+m"}
 
 const c07Chunks = 4
 
@@ -39,7 +39,7 @@ func init() {
 	Registry["C07"] = &Prop{
 		Plan: func(tier string) Plan {
 			return Plan{Level: "fault_enumeration", NCases: pick(tier, 16*c07Chunks, 1500*c07Chunks), Batch: 2, CaseTimeout: 300,
-				Rule: "histories are PRNG sequential write scripts (multi-version keys, tombstones below/at/above R, re-created keys, keys in skipped prefixes and outside the node's prefix) rebuilt identically on a fresh engine for every execution (memkv, Badger, TiKV mock; in 3 of 7 histories the engine reports several partitions whose borders lie at index records, inside a key's versions or at unstored keys); " +
+				Rule: "histories are PRNG sequential write scripts (multi-version keys, tombstones below/at/above R, re-created keys, keys in skipped prefixes and outside the node's prefix) rebuilt identically on a fresh engine for every execution (memkv, Badger, TiKV mock, in 3 of 9 histories behind the production storage metrics wrapper; in 3 of 9 histories the engine reports several partitions whose borders lie at index records, inside a key's versions or at unstored keys); " +
 					"for EVERY delete call i=1..D that a clean Compact(R) of the history makes (D learned from a dry run; positions are split over 4 cases per history) two executions are made: (a) delete i fails (generic error; compare-and-delete calls also with a failed-compare error), (b) every delete from i on fails (compactor died after i-1 deletions) and a NEW backend is opened on the store; and where delete i removes an index record, (c) a client re-creates that key right before the removal (placed through the storage wrapper). " +
 					"After each: all reads at revisions >= R (Get every key, List inside/outside the prefix, at R, at checkpoints above R and at latest) must equal the reference snapshot, then a clean Compact(R), the same reads again, then create/update/delete on every key against the reference; records outside the compaction ranges must be byte-identical. Every 5th history is instead the concurrent variant (writers on the keys being compacted while Compact runs). " +
 					"evaluations = executions (history x position x mode); non-trivial+distinct = executions in which the injected fault actually fired, identified by (history, position, mode)",
@@ -112,14 +112,17 @@ func genC07History(r *rand.Rand, cfg c07Config) *c07Hist {
 }
 
 type c07Store struct {
-	eng   *harness.Engine
-	w     *harness.Wrap
-	n     *harness.Node
-	m     *harness.Model
-	revs  []uint64 // checkpoint after each op
-	R     uint64
-	delN  int32 // delete calls seen during compaction
-	fired int32
+	eng *harness.Engine
+	w   *harness.Wrap
+	// what the backend sees: w, or the production metrics wrapper over w
+	nodeKV storage.KvStorage
+	rm     *harness.RecMetrics
+	n      *harness.Node
+	m      *harness.Model
+	revs   []uint64 // checkpoint after each op
+	R      uint64
+	delN   int32 // delete calls seen during compaction
+	fired  int32
 	// fault plan
 	failAt   int32 // 1-based position; 0 = none
 	failFrom bool
@@ -166,7 +169,7 @@ func buildC07(c *harness.Case, kind string, h *c07Hist) *c07Store {
 		}
 	} else {
 		var err error
-		if eng, err = harness.NewEngine(kind); err != nil {
+		if eng, err = harness.NewEngine(strings.TrimSuffix(kind, "+m")); err != nil {
 			c.Inconclusive(err.Error())
 			return nil
 		}
@@ -175,7 +178,16 @@ func buildC07(c *harness.Case, kind string, h *c07Hist) *c07Store {
 	s := &c07Store{eng: eng, m: harness.NewModel()}
 	s.w = harness.NewWrap(kv)
 	s.w.DelFault = s.delFault
-	s.n = harness.NewNode(harness.NodeOpts{KV: s.w, Config: backend.Config{SkippedPrefixes: h.cfg.skipped, WatchCacheSize: 16}})
+	var nodeKV storage.KvStorage = s.w
+	var rm *harness.RecMetrics
+	if harness.IsMetricsKind(kind) {
+		// the production storage metrics wrapper sits between the backend and the (faulty) engine, as with
+		// --enable-storage-metrics: the engine's errors have to come through it
+		rm = harness.NewRecMetrics(true)
+		nodeKV = harness.WithMetrics(s.w, rm)
+	}
+	s.nodeKV, s.rm = nodeKV, rm
+	s.n = harness.NewNode(harness.NodeOpts{KV: nodeKV, Metrics: rm, Config: backend.Config{SkippedPrefixes: h.cfg.skipped, WatchCacheSize: 16}})
 	for i, op := range h.ops {
 		_, mis := s.n.ApplyChecked(s.m, op)
 		if mis != "" {
@@ -459,7 +471,7 @@ func runC07(c *harness.Case) {
 			var n2 *harness.Node
 			if md.restart {
 				// the compactor died: a new backend takes over the same store at the old read revision
-				n2 = harness.NewNode(harness.NodeOpts{KV: s.w, StartRev: s.n.Committed(), Config: backend.Config{SkippedPrefixes: h.cfg.skipped, WatchCacheSize: 16}})
+				n2 = harness.NewNode(harness.NodeOpts{KV: s.nodeKV, Metrics: s.rm, StartRev: s.n.Committed(), Config: backend.Config{SkippedPrefixes: h.cfg.skipped, WatchCacheSize: 16}})
 				n = n2
 			}
 			good := s.reads(c, n, h, "after Compact with "+what, wit)
